@@ -647,6 +647,7 @@ _X = {
                    "exec_last_error", "exec_copy_with_result"],
     "XRetry": ["retry_on_failure"], "XBase": ["base_post_execute"], "XCache": ["cache_get_key", "cache_pre_execute", "cache_post_execute"],
     "XFallback": ["fallback_apply"], "XBulkhead": ["bulkhead_pre_execute"], "XRetryLoop": ["retry_loop_iteration"],
+    "XAdmit": ["breaker_pre_execute", "breaker_on_success", "breaker_on_failure", "limiter_apply"],
 }
 def _extend(pid, areas, link=True):
     c = PROPS[pid]
@@ -656,14 +657,16 @@ def _extend(pid, areas, link=True):
     if link and _LINK not in c["ties"]:
         c["ties"] = c["ties"] + [_LINK]
     c["manifest"]["text"] += " GEN also covers the bodies of the code this property runs through (%s): regenerated from the source on every run, proved equal to reference definitions, which the composition model is proved to compute." % ", ".join(areas)
-_extend("C01", ["XBase"])
+_extend("C01", ["XBase", "XAdmit"])
 _extend("C02", ["XRetry", "XBase", "XRetryLoop"])
 _extend("C06", ["XBulkhead"], link=False)
 _extend("C08", ["XExecution", "XBulkhead", "XRetryLoop"])
 _extend("C10", ["XFallback", "XBase"])
 _extend("C11", ["XCache"])
 _extend("C15", ["XExecution"], link=False)
-_extend("C16", ["XRetry", "XCache", "XFallback", "XRetryLoop"])
+_extend("C16", ["XRetry", "XCache", "XFallback", "XRetryLoop", "XAdmit"])
+_extend("C04", ["XAdmit", "XBase"])
+_extend("C05", ["XAdmit"], link=False)
 _extend("C17", ["XExecution"])
 PROPS["C02"]["required_theorems"] += ["Failsafe.Props.C02." + t for t in ["kernel_exceeded_iff", "kernel_result", "kernel_result_not_success", "kernel_listeners", "model_retry_decision_is_the_codes", "model_retry_loop_is_the_codes", "kernel_loop_early_exits", "kernel_loop_continues_only_after_init"]]
 PROPS["C08"]["required_theorems"] += ["Failsafe.Props.C08." + t for t in ["cancel_first_wins", "cancel_reports_result", "ctx_end_reports_ctx_error", "initializeRetry_cancelled", "initializeRetry_clears_cell", "recordResult_cancelled", "model_cancel_answers_are_the_codes"]]
@@ -713,3 +716,4 @@ PROPS["C09"]["rule"] += "; trace slice: real hedged executions (maxHedges 0-3, d
 PROPS["C09"]["manifest"]["text"] += " TRACE: recorded event lists of real hedged executions are decided by an acceptor proved exact for the interleaving model; what acceptance implies is proved in the property file."
 PROPS["C09"]["manifest"]["technique"] += " + trace acceptance against the interleaving model (acceptor proved sound and complete)"
 PROPS["C09"]["required_theorems"] += ["Failsafe.Props.C09." + t for t in ["accepted_states_inv", "returned_value_was_produced", "hedge_event_needs_slot", "readings_after_return"]]
+PROPS["C04"]["required_theorems"] += ["Failsafe.Props.C04." + t for t in ["kernel_admission", "kernel_records_once", "model_breaker_layer_is_the_codes"]]
